@@ -70,6 +70,10 @@ ASSUMPTIONS = [
     "on that input under the same iteration order (driver call per failing input); a wrong answer that differs from the model's "
     "gets the never-listed key [differs-from-the-wrong-answer-of-the-modelled-code, ...]: a new defect is not hidden behind an old "
     "finding that happens to fire on the same input",
+    "Zero from the exchange step (`fix:` 1a940ac: two outcomes end up under one key with different values) is characterised by theorem "
+    "(idcstar_collapse_zero_only_on_conflict / idcstar_no_collapse_no_zero); that the joint event then has probability 0 is decided by "
+    "the oracle (check_zero on sampled models), not proved; a wrong exchange that loses an outcome conjunct would be the never-listed "
+    "kind 'exchange:outcomes-collapse'",
     "vocabulary: an estimand with a term that mixes variables of different worlds is a failure of kind 'vocabulary' whatever its "
     "value (it is a counterfactual joint distribution, nothing has been identified); the unchanged code never returns one "
     "(idcstar_vocab)",
@@ -290,6 +294,11 @@ def _gen_outbase(rng: random.Random):
     outs = [[K.mkvar(y, w1), a], [K.mkvar(y, w2), a if rng.random() < 0.5 else ("p" if a == "m" else "m")]]
     zs = rng.sample(anc, min(len(anc), rng.choice([1, 2])))
     conds = [[K.mkvar(z, rng.choice([(), w1]) if z != x else ()), star()] for z in zs]
+    if rng.random() < 0.4:
+        # the collision of `fix:` 1a940ac: X = x is observed with the value the world w1 sets, Y is also an outcome factually:
+        # exchanging X turns Y into Y_x, which is already there (equal or different value)
+        outs[1][0] = K.mkvar(y, ())
+        conds = [c for c in conds if int(c[0][1]) != x] + [[K.mkvar(x), w1[0][1]]]
     rng.shuffle(outs)
     return g, outs, conds
 
@@ -1197,8 +1206,8 @@ MANIFEST = {
              "code plus exact evaluation of P(outcomes, conditions)/P(conditions) on sampled functional SCMs; every wrong answer is "
              "attributed to the first step of IDC*'s chain of claims that exact evaluation shows to be broken (reassociation, "
              "exchange:conditions, inherited from ID*, F11; exchange:separation is repaired) and those steps are listed as open findings -- a wrong answer is "
-             "excused by a listed finding only if the model returns the same wrong answer on that input; five "
-             "small defects were fixed in idc_star.py (0cb6c69, 8a76512, 9f8a537, 1834c39: the rule-2 test conditions on the other conditions, b76144c: the answer no longer depends on PYTHONHASHSEED, checked in fresh interpreters under several hash seeds) and the subscript part of F11 in dsl.py (a54a0f5)."),
+             "excused by a listed finding only if the model returns the same wrong answer on that input; six "
+             "small defects were fixed in idc_star.py (0cb6c69, 8a76512, 9f8a537, 1a940ac: Zero when the exchange makes two outcomes one variable with two values -- the loop answers Zero only on such a conflict and otherwise builds the dict the old comprehension built: idcstar_collapse_zero_only_on_conflict, idcstar_no_collapse_no_zero, idcstar_exchange_dict --, 1834c39: the rule-2 test conditions on the other conditions, b76144c: the answer no longer depends on PYTHONHASHSEED, checked in fresh interpreters under several hash seeds) and the subscript part of F11 in dsl.py (a54a0f5)."),
     "note": ("Trusted: Lean kernel + standard axioms; hand-written models (ID*, counterfactual graph, d-separation of the sep "
              "family, Expression.conditional) tied to the code by differential testing under all set-iteration orders; the "
              "reading convention of estimands; sampled models (8 per case, P(conditions) > 0)."),
